@@ -458,11 +458,11 @@ def spec_configs(spec):
                 ('WE', {'W': '0+', 'E': '+0'}, 1),                  # two volatile chemicals
                 ('WN', {'W': '0+', 'N': '+0'}, 1),                  # one volatile chemical + non-condensable gas
                 ('WX', {'W': '0+', 'X': '0+'}, 1),                  # one volatile chemical + non-volatile solute
-                ('WEN', {'W': '0+', 'E': '0+', 'N': '+0'}, 1),
-                ('WEX', {'W': '+0', 'E': '0+', 'X': '0+'}, 1),
                 ('NX', {'N': '+0', 'X': '0+'}, 0),                  # nothing volatile (NoEquilibrium inside)
                 ('WE', {'W': '00', 'E': '00'}, 0),                  # empty stream (NoEquilibrium inside)
             ]
+            if tier == 'thorough' or spec == 'TP':
+                fam += [('WEN', {'W': '0+', 'E': '0+', 'N': '+0'}, 1), ('WEX', {'W': '+0', 'E': '0+', 'X': '0+'}, 1)]
             if tier == 'thorough':
                 fam += [
                     ('WENX', {'W': '0+', 'E': '+0', 'N': '+0', 'X': '0+'}, 1),
@@ -743,20 +743,18 @@ def K_posing(w, cfg):
 
 # =========================================================================== S: set_PH / set_PS reproduce the specified H / S
 
-def corr_configs(tier):
-    fam = [
-        ('W', {'W': '++'}, 0, 'interior'),
-        ('WE', {'W': '03', 'E': '50'}, 0, 'interior'),
-        ('WE', {'W': '0+', 'E': '+0'}, 0, 'interior'),
-        ('WE', {'W': '0+', 'E': '+0'}, 1, 'interior'),
-        ('WEN', {'W': '0+', 'E': '0+', 'N': '+0'}, 0, 'interior'),
-        ('WEX', {'W': '+0', 'E': '0+', 'X': '0+'}, 0, 'interior'),
-        ('NX', {'N': '+0', 'X': '0+'}, 0, 'interior'),
-    ]
-    if tier == 'thorough':
-        fam += [('WE', {'W': '0+', 'E': '+0'}, 1, 'box'), ('WEM', {'W': '0+', 'E': '+0', 'M': '++'}, 1, 'interior'),
-                ('WENX', {'W': '0+', 'E': '+0', 'N': '+0', 'X': '0+'}, 1, 'interior'), ('WE', {'W': '0+', 'E': '+0'}, 2, 'interior')]
-    return [{'name': f'{keys}/{_dist_name(d, keys)}/k={k}/v={v}', 'pkg': keys, 'dist': d, 'k': k, 'v': v} for keys, d, k, v in fam]
+def corr_configs(var):
+    def configs(tier):
+        fam = [('W', {'W': '++'}, 0, 'interior')]
+        if var == 'H' or tier == 'thorough':
+            fam += [('WE', {'W': '03', 'E': '50'}, 0, 'interior')]          # concrete feed amounts: linear arithmetic, cheap
+        if tier == 'thorough':
+            fam += [('WE', {'W': '0+', 'E': '+0'}, 0, 'interior'), ('WE', {'W': '0+', 'E': '+0'}, 1, 'interior'),
+                    ('WEN', {'W': '0+', 'E': '0+', 'N': '+0'}, 0, 'interior'), ('WEX', {'W': '+0', 'E': '0+', 'X': '0+'}, 0, 'interior'),
+                    ('WE', {'W': '03', 'E': '50'}, 1, 'box'), ('WEM', {'W': '03', 'E': '50', 'M': '22'}, 1, 'interior'),
+                    ('WENX', {'W': '03', 'E': '50', 'N': '10', 'X': '01'}, 1, 'interior')]
+        return [{'name': f'{keys}/{_dist_name(d, keys)}/k={k}/v={v}', 'pkg': keys, 'dist': d, 'k': k, 'v': v} for keys, d, k, v in fam]
+    return configs
 
 
 def corr_body(var):
@@ -810,10 +808,10 @@ _A_CORR = ['A-bubble/dew: solve_Ty / solve_Tx return T > 0 and a composition >= 
            'A-solve_v: VLE._solve_v returns 0 <= v <= mol_vle and sets _v, _T (its contract, discharged in C03/solve_v_clip)',
            'A-models: pure-component H, S, Cn are uninterpreted deterministic functions of (T, P); the mixing rule is the real one',
            'A-root: xsolve_T_at_HP / xsolve_T_at_SP return T* with xH(T*) = H (xS(T*) = S)']
-group('C04/PH_correction', configs=corr_configs, l0=True,
+group('C04/PH_correction', configs=corr_configs('H'), l0=True,
       functions=[_VLE + f for f in ('__call__', 'set_PH', '_set_PH_chemical', '_H_hat_err_at_T', '_setup')] + ['thermosteam.mixture.mixture:Mixture.xH'],
       assumptions=_A_CORR)(corr_body('H'))
-group('C04/PS_correction', configs=corr_configs, l0=True,
+group('C04/PS_correction', configs=corr_configs('S'), l0=True,
       functions=[_VLE + f for f in ('__call__', 'set_PS', '_set_PS_chemical', '_S_hat_err_at_T', '_setup')] + ['thermosteam.mixture.mixture:Mixture.xS'],
       assumptions=_A_CORR + ['A-linear-S: in the correction step the entropy model is linear in the flows (the entropy of mixing of the real '
                              'IdealEntropyModel is covered by the bounded group C04/B_HS only)'])(corr_body('S'))
